@@ -219,11 +219,19 @@ func runC19Case(cc c19Case, lines, expect, what *[]string) (string, string) {
 			Age  int    `json:"age"`
 			Name string `json:"name"`
 		}
-		docs := []string{`"hello"`, `300`, `{"age":"forty","name":"x"}`, `[1,2,3]`, `{"a":1}`, `[1,"two",3]`}
-		doc := docs[cc.Target%6]
+		// the last two produce error texts far longer than a Close reason may be (encoding/json echoes the number
+		// literal; a custom UnmarshalJSON is verbose): the peer must still get 1007, not an abrupt end
+		docs := []string{`"hello"`, `300`, `{"age":"forty","name":"x"}`, `[1,2,3]`, `{"a":1}`, `[1,"two",3]`, strings.Repeat("1234567890", 30), `{"picky":true}`}
+		doc := docs[cc.Target%8]
 		peer.writeFrame(RawFrame{Fin: true, Op: 1, Payload: []byte(doc)})
 		var err error
-		switch cc.Target % 6 {
+		switch cc.Target % 8 {
+		case 6:
+			var v int
+			err = wsjson.Read(ctx, c, &v)
+		case 7:
+			var v verbosePicky
+			err = wsjson.Read(ctx, c, &v)
 		case 0:
 			var v int
 			err = wsjson.Read(ctx, c, &v)
@@ -338,6 +346,9 @@ func runC19(ctx *runCtx) {
 		if i < 5 {
 			cases = append(cases, c19Case{Client: i%2 == 0, Kind: "unmarshalable", Seed: int64(i)})
 			cases = append(cases, c19Case{Client: i%2 == 1, Kind: "mismatch", Target: i}, c19Case{Client: i%2 == 0, Kind: "mismatch", Target: i + 1})
+			if i < 2 {
+				cases = append(cases, c19Case{Client: i%2 == 0, Kind: "mismatch", Target: 6 + i}, c19Case{Client: i%2 == 1, Kind: "mismatch", Target: 6 + i})
+			}
 		}
 		cases = append(cases, c19Case{Client: i%2 == 0, Kind: "invalid", Doc: d, Seed: ctx.seed}, c19Case{Client: i%2 == 1, Kind: "invalid", Doc: d, Seed: ctx.seed, Target: 1}, c19Case{Client: i%2 == 0, Kind: "invalid", Doc: d, Seed: ctx.seed, Target: 2 + i%3})
 	}
@@ -404,4 +415,11 @@ func runC19(ctx *runCtx) {
 	askAndCompare(ctx, lines, expect, what, "json-model-vs-impl")
 	rep.sample(cases[0])
 	rep.sample(cases[len(cases)-20])
+}
+
+// verbosePicky: a target whose UnmarshalJSON always fails with a long explanation.
+type verbosePicky struct{}
+
+func (*verbosePicky) UnmarshalJSON(b []byte) error {
+	return fmt.Errorf("verbosePicky refuses %q: %s", b, strings.Repeat("this value is not acceptable for a great many reasons; ", 6))
 }
